@@ -122,9 +122,27 @@ def load_frozen_defaults():
     return {k: norm(v) for k, v in d.items() if not is_alias(k)}
 
 
+def load_frozen_display():
+    """the documented non-style display defaults (backend, animation.*, colorsequence, autosizefactor)"""
+    with open(os.path.join(_HERE, "defaults_frozen.json")) as f:
+        return {k: norm(v) for k, v in json.load(f)["display"].items()}
+
+
+DISPLAY_VALID = {
+    "animation_fps": [10, 25], "animation_maxfps": [20, 40], "animation_maxframes": [100, 150],
+    "animation_time": [3, 8], "animation_slider": [False, True], "backend": ["plotly", "matplotlib", "auto"],
+    "autosizefactor": [5, 20], "colorsequence": [["red", "blue"], ["green", "black", "red"]],
+}
+DISPLAY_INVALID = {
+    "animation_fps": [-1, "fast"], "animation_maxfps": [0, "x"], "animation_slider": ["yes"],
+    "backend": ["nobackend"], "autosizefactor": [-2, "big"], "colorsequence": [["notacolor"]],
+}
+
+
 class StyleModel:
     def __init__(self):
         self.D = load_frozen_defaults()  # "fam_leaf" -> value
+        self.display = load_frozen_display()  # non-style display settings
         self.S = []  # per object: leaf -> value (own style; None = not set)
         self.cls = []
 
@@ -135,6 +153,7 @@ class StyleModel:
 
     def reset_defaults(self):
         self.D = load_frozen_defaults()
+        self.display = load_frozen_display()
 
     def set_obj(self, i, leaf, value):
         if is_alias(leaf):
